@@ -72,9 +72,38 @@ def mk(members):
             "settings": {"struct_builder": True}}
 
 
+def recursive_cases():
+    """structs that refer to themselves (the member type becomes Option<Box<T>>, Box<Option<T>>, Vec<T>, ... depending on where the
+    cycle breaker enters), with and without an earlier-sorting definition `A` that reaches T first"""
+    out = []
+    REF_T = {"$ref": "#/definitions/T"}
+    self_kinds = {"self": (REF_T, [{"a": "s1"}, {"a": "", "foo-bar": {"a": "s1"}}]),
+                  "self_nullable": ({"oneOf": [REF_T, {"type": "null"}]}, [{"a": "s1"}, None]),
+                  "self_vec": ({"type": "array", "items": REF_T}, [[], [{"a": "s1"}]])}
+    firsts = {"none": None, "opt": {"type": "object", "properties": {"pinned": REF_T}},
+              "req": {"type": "object", "properties": {"pinned": REF_T}, "required": ["pinned"]},
+              "nullable": {"type": "object", "properties": {"pinned": {"oneOf": [REF_T, {"type": "null"}]}}},
+              "vec": {"type": "object", "properties": {"pinned": {"type": "array", "items": REF_T}}}}
+    for sk, (schema, vals) in self_kinds.items():
+        for state in ("opt", "req") if sk != "self" else ("opt",):
+            for fk, first in firsts.items():
+                if state == "req":   # nested samples must themselves carry the required member
+                    vals = {"self_nullable": [None, {"a": "s1", "foo-bar": None}], "self_vec": [[], [{"a": "s1", "foo-bar": []}]]}[sk]
+                ms = [dict(member("string", "req"), name="a"),
+                      {"type": sk, "state": state, "schema": schema, "vals": vals, "raw": None, "default": None, "name": "foo-bar"}]
+                T = {"type": "object", "properties": {"a": ms[0]["schema"], "foo-bar": schema}, "required": ["a"] + (["foo-bar"] if state == "req" else [])}
+                defs = {"P": P, "T": T}
+                if first:
+                    defs["A"] = first
+                out.append({"id": "builder[string:req+%s:%s|first=%s]" % (sk, state, fk), "doc": {"definitions": defs}, "target": "T", "members": ms,
+                            "settings": {"struct_builder": True}})
+    return out
+
+
 def cases(tier, seed):
     sp = specs()
     out = [mk([m]) for m in sp]
+    out += recursive_cases()
     if tier == "quick":
         core = [m for m in sp if m["type"] in ("string", "str_max2", "enum_ab", "vec", "map", "ref") and True]
         pairs = [(a, b) for a in core[::2] for b in core[1::3]]
